@@ -56,7 +56,10 @@ func processAccessClients(
 				return fmt.Errorf("value %q at index %d: bad ip, cidr, or clientid", s, i)
 			}
 
-			clientIDs.Add(s)
+			// ClientIDs are case-insensitive, and the ClientID of a request is
+			// always lowercased, see [clientIDFromClientServerName] and
+			// [clientIDFromDNSContextHTTPS].
+			clientIDs.Add(strings.ToLower(s))
 		}
 	}
 
@@ -113,6 +116,8 @@ func (a *accessManager) allowlistMode() (ok bool) {
 
 // isBlockedClientID returns true if the ClientID should be blocked.
 func (a *accessManager) isBlockedClientID(id string) (ok bool) {
+	id = strings.ToLower(id)
+
 	allowlistMode := a.allowlistMode()
 	if id == "" {
 		// In allowlist mode, consider requests without ClientIDs blocked by
